@@ -33,6 +33,53 @@ type Inner3 struct {
 	K int
 }
 
+// zeroElements: elements of a top-level slice / array / map that have no field set are objects like any other: their
+// empty required fields are reported.
+func zeroElements(c *runner.Ctx) {
+	c.Space("all-zero-elements-of-top-level-collections")
+	req := func(path string) string { return `"` + path + `" input "", explain: it is required` }
+	cases := []struct {
+		name string
+		src  interface{}
+		want []string
+	}{
+		{"[]Inner3{{}, {V:x}}", []Inner3{{}, {V: "x"}}, []string{req("Inner3[0].V")}},
+		{"[]Inner3{{V:x}, {}, {}}", []Inner3{{V: "x"}, {}, {}}, []string{req("Inner3[1].V"), req("Inner3[2].V")}},
+		{"[2]Inner3{}", [2]Inner3{}, []string{req("Inner3[0].V"), req("Inner3[1].V")}},
+		{"map[string]Inner3{k:{}}", map[string]Inner3{"k": {}}, []string{req("Inner3[k].V")}},
+		{"[]*Inner3{&{}, nil, &{K:1}}", []*Inner3{{}, nil, {K: 1}}, []string{req("Inner3[0].V"), req("Inner3[2].V")}},
+		{"map[int]*Inner3{7:&{}}", map[int]*Inner3{7: {}}, []string{req("Inner3[7].V")}},
+	}
+	for _, cs := range cases {
+		if !c.Take() {
+			continue
+		}
+		var err error
+		pan, msg, site := runner.Guard(func() { err = valid.Struct(cs.src) })
+		c.Done(true, 1)
+		got := ""
+		if err != nil {
+			got = err.Error()
+		}
+		// path prefixes differ by collection kind; compare the clause count and the field part
+		det := map[string]interface{}{"input": cs.name, "expected_clauses": len(cs.want), "actual": got}
+		if pan {
+			det["panic"] = msg
+			c.Violation("panic@"+site, det)
+			continue
+		}
+		n := 0
+		if got != "" {
+			n = len(errparse.Split(got))
+		}
+		if n != len(cs.want) || strings.Count(got, ".V\" input \"\", explain: it is required") != len(cs.want) {
+			c.Violation("zero-elements/required-not-reported", det)
+		} else {
+			c.Outcome("zero-elements-ok")
+		}
+	}
+}
+
 func longCollections(c *runner.Ctx) {
 	c.Space("required-next-to-long-collections")
 	for _, n := range []int{1, 50, 63, 64, 98, 99, 100, 127, 128, 129, 255, 256, 1000} {
@@ -383,6 +430,7 @@ func run(c *runner.Ctx) {
 		}
 	}
 	longCollections(c)
+	zeroElements(c)
 	// missing entries: map without the key, URL without the parameter
 	c.Space("missing-and-url")
 	for _, rf := range forms {
